@@ -342,21 +342,35 @@ impl<Payload: for<'de> Deserialize<'de>> JWT<Payload> {
         let payload_part = parts.next()
             .ok_or_else(Response::Unauthorized)?;
         let payload: Payload = part_value(payload_part)?;
-        let now = crate::util::unix_timestamp();
-        if payload.get("nbf").is_some_and(|nbf| nbf.as_u64().unwrap_or(0) > now) {
-            return Err(Response::Unauthorized().with_text(UNAUTHORIZED_MESSAGE))
+        let now = crate::util::unix_timestamp() as f64;
+        /* NumericDate is any JSON number (RFC 7519): negative or fractional values must be compared, not skipped */
+        fn numeric_date(claim: &::serde_json::Value) -> Result<f64, Response> {
+            claim.as_f64().ok_or_else(|| Response::BadRequest().with_text("invalid NumericDate"))
         }
-        if payload.get("exp").is_some_and(|exp| exp.as_u64().unwrap_or(u64::MAX) <= now) {
-            return Err(Response::Unauthorized().with_text(UNAUTHORIZED_MESSAGE))
+        if let Some(nbf) = payload.get("nbf") {
+            if numeric_date(nbf)? > now {
+                return Err(Response::Unauthorized().with_text(UNAUTHORIZED_MESSAGE))
+            }
         }
-        if payload.get("iat").is_some_and(|iat| iat.as_u64().unwrap_or(0) > now) {
-            return Err(Response::Unauthorized().with_text(UNAUTHORIZED_MESSAGE))
+        if let Some(exp) = payload.get("exp") {
+            if numeric_date(exp)? <= now {
+                return Err(Response::Unauthorized().with_text(UNAUTHORIZED_MESSAGE))
+            }
+        }
+        if let Some(iat) = payload.get("iat") {
+            if numeric_date(iat)? > now {
+                return Err(Response::Unauthorized().with_text(UNAUTHORIZED_MESSAGE))
+            }
         }
 
         let signature_part = parts.next()
             .ok_or_else(Response::Unauthorized)?;
         let requested_signature = crate::util::base64_url_decode(signature_part)
             .map_err(|_| Response::Unauthorized())?;
+        if parts.next().is_some() {
+            /* a JWS compact serialization has exactly three parts */
+            return Err(Response::Unauthorized().with_text(UNAUTHORIZED_MESSAGE))
+        }
 
         let is_correct_signature = {
             use ::sha2::{Sha256, Sha384, Sha512};
